@@ -2,6 +2,7 @@ package rules
 
 import (
 	"fmt"
+	"hash/fnv"
 	"sort"
 	"strings"
 
@@ -67,7 +68,7 @@ var strategiesWithoutTable = map[string]string{
 func CheckC06(c *Ctx) {
 	run := c.Run
 	run.Technique = "value-term extraction over the stage graph (sources as field projections of the snapshots, sub-indicators as uninterpreted operators, stateless closures inlined as expressions) + role typing of every indicator argument + anchor alignment of decision operands + semantic comparison of each decision closure with its documented rule on all strict sign vectors of the compared quantities"
-	run.Explanation = "For every base strategy the action stream's value term is derived from the current source: which snapshot field (read from the field the extractor's closure selects, not from its name) reaches which parameter of which indicator, and the decision closure as a nested conditional over comparisons. Decided: (a) every argument bound to a role-named parameter of an indicator's Compute (high(s), low(s), closing(s), opening(s), volume(s)) is exactly that price field; (b) the operands of every decision zip refer to the same snapshot position except the two documented previous-vs-current cross-over detectors; (c) the decision closure equals the documented rule (table of 30 strategies) as a function of the signs of the compared quantities — evaluated on every strict sign vector, so branch order, if/switch style or algebraically equivalent rewrites do not matter, while a flipped comparison, a changed threshold field, a different indicator output or price field does. Where an indicator value can be undefined (its documented composition divides by a quantity that can be zero: MFI, RSI, %K, CMF, …) the vectors in which every comparison with that value is unordered (false, as IEEE comparisons with NaN are) are evaluated too: the documented rule then gives Hold. (d) threshold-wiring: every level field the decision reads (BuyAt, SellAt, …) is initialised by the constructors with the parameter, named constant or literal it was given, not with an expression that changes it. Positions where compared quantities are equal are exempt, as the property states. Whether an indicator's values are right is C01's concern."
+	run.Explanation = "For every base strategy the action stream's value term is derived from the current source: which snapshot field (read from the field the extractor's closure selects, not from its name) reaches which parameter of which indicator, and the decision closure as a nested conditional over comparisons. Decided: (a) every argument bound to a role-named parameter of an indicator's Compute (high(s), low(s), closing(s), opening(s), volume(s)) is exactly that price field; (b) the operands of every decision zip refer to the same snapshot position except the two documented previous-vs-current cross-over detectors; (c) the decision closure equals the documented rule (table of 30 strategies) as a function of the signs of the compared quantities — evaluated on every strict sign vector, so branch order, if/switch style or algebraically equivalent rewrites do not matter, while a flipped comparison, a changed threshold field, a different indicator output or price field does. Where an indicator value can be undefined (its documented composition divides by a quantity that can be zero: MFI, RSI, %K, CMF, …) the vectors in which every comparison with that value is unordered (false, as IEEE comparisons with NaN are) are evaluated too: the documented rule then gives Hold. (d) threshold-wiring: every level field the decision reads (BuyAt, SellAt, …) is initialised by the constructors with the parameter, named constant or literal it was given, not with an expression that changes it. Positions where compared quantities are equal are exempt, as the property states. Whether an indicator's values are right is C01's concern. The Triple RSI rule over a ring of past RSI values is read as a decision table with bounded existentials (dtab) and compared with the documented rule on every assignment of its atoms; default constants have their documented values and are used; named arguments of constructors are not swapped."
 	run.Trusted = []string{"go/types", "decision-rule table rules.DecisionSpecs (from the types' doc comments)", "role vocabulary of parameter names (DESIGN appendix D)", "exact rational-function algebra (internal/sym)"}
 	specs := map[string]decisionSpec{}
 	for _, s := range DecisionSpecs {
@@ -215,6 +216,7 @@ func (c *Ctx) compareDecision(r *shape.Result, fi *load.FuncInfo, term sym.Expr,
 	total := 0
 	badUndef, totalUndef := 0, 0
 	var firstMsg string
+	keyHash := fnv.New32a()
 	nan := map[string]bool{}
 	c.nanKeys(term, nan)
 	for _, rr := range rules {
@@ -275,6 +277,13 @@ func (c *Ctx) compareDecision(r *shape.Result, fi *load.FuncInfo, term sym.Expr,
 			bad++
 			if undefinedPass {
 				badUndef++
+			} else {
+				// every differing vector enters the finding's key: another defect at the same site
+				// that happens to change as many vectors is another finding
+				for _, k := range ks {
+					fmt.Fprintf(keyHash, "%s:%d;", k, sg[k])
+				}
+				fmt.Fprintf(keyHash, "->%v/%v|", got, want)
 			}
 			if firstMsg == "" {
 				var desc []string
@@ -296,7 +305,7 @@ func (c *Ctx) compareDecision(r *shape.Result, fi *load.FuncInfo, term sym.Expr,
 	run.Oblige(bad == 0)
 	run.Sample(map[string]string{"obligation": "decision of " + sp.Type + " = documented rule on " + fmt.Sprint(total) + " sign vectors", "rule": fmt.Sprint(sp.Rules), "verdict": fmt.Sprint(bad == 0)})
 	if bad > 0 {
-		detail := fmt.Sprintf("%d of %d sign vectors differ", bad-badUndef, total-totalUndef)
+		detail := fmt.Sprintf("%d of %d sign vectors differ #%08x", bad-badUndef, total-totalUndef, keyHash.Sum32())
 		if bad == badUndef {
 			detail = fmt.Sprintf("%d of %d vectors with an undefined indicator value differ", badUndef, totalUndef)
 		}
